@@ -300,6 +300,17 @@ func (p Point) Address() ([]byte, error) {
 
 // publicKey converts a Point back to a secp256k1.PublicKey.
 func (p Point) publicKey() (*secp256k1.PublicKey, error) {
+	// A Point is the 33-byte compressed encoding only. Its raw bytes are hashed into challenges and
+	// symmetric keys, so a second (uncompressed or hybrid) encoding of the same point must not parse.
+	if len(p) != secp256k1.PubKeyBytesLenCompressed {
+		return nil, NewError(
+			ErrInvalidPubkeyFormat,
+			"length %d, expected %d",
+			len(p),
+			secp256k1.PubKeyBytesLenCompressed,
+		)
+	}
+
 	pubKey, err := secp256k1.ParsePubKey(p)
 	if err != nil {
 		return nil, NewError(ErrParseError, "%s", err.Error())
